@@ -43,7 +43,7 @@ def _model_and_replay(ctx, rep, spec, cfg, label, workers, jobs, ignore=(), args
     # small batches: when a batch leaks, vrun re-runs it one case per process to attribute the leak
     cases = os.path.join(ctx.tmp, "%s.cases" % cfg)
     ctx.model(spec, cfg, emit_to=cases, timeout=ctx.pick(900, 3000), xmx="6g", workers=workers, ignore_cov=ignore)
-    m = ctx.replay(rep, cases, label=label, timeout=ctx.pick(900, 5400), jobs=jobs, args=list(args) + ["--batch", "300"] + ([] if ctx.quick else ["--all-kinds"]))
+    m = ctx.replay(rep, cases, label=label, timeout=ctx.pick(900, 5400), jobs=jobs, args=list(args) + ["--batch", ctx.pick("300", "1000")] + ([] if ctx.quick else ["--all-kinds"]))
     os.unlink(cases)
     return m
 
@@ -93,7 +93,7 @@ def run(ctx):
             vlib.log(ctx.engines[-1])
 
     def traces():
-        files = ctx.record(rec, ctx.pick(8, 40), ctx.pick(25000, 60000), "V/FiniteMap")
+        files = ctx.record(rec, ctx.pick(8, 32), ctx.pick(25000, 50000), "V/FiniteMap")
         ctx.validate_traces("Trace_FiniteMap", "Trace_FiniteMap", files, label="V/FiniteMap", timeout=ctx.pick(600, 3000),
                             parallel=max(2, ncpu // 4))
 
